@@ -10,7 +10,7 @@ import re
 from vlib import hexs, unhexs
 
 LOOP_COQ_FILES = ["Bytes.v", "ParserModel.v", "BuilderModel.v", "ConnModel.v", "CommandModel.v", "MpdTokenizer.v",
-                  "LoopModel.v", "ServerModel.v", "CallerModel.v", "LoopProofs.v"]
+                  "LoopModel.v", "ServerModel.v", "CallerModel.v", "LoopProofs.v", "LoopSpec.v", "LoopSpecProofs.v"]
 
 SUBSYSTEMS = ["database", "update", "stored_playlist", "playlist", "player", "mixer", "output", "options", "partition",
               "sticker", "subscription", "message", "neighbor", "mount", "fingerprint", "Player", "x-y_z"]
